@@ -44,3 +44,40 @@ Print Assumptions C19_write_volume_repeatable.
 (* A successful convert-chunks run has written every chunk it was asked to
    produce and each is readable (exit status 0 => complete): this is
    C13_convert_pointwise; for the volume writer it is C01_convert_pointwise. *)
+
+(* ---- closed instance over the I/O layer model of C03 ----
+   The two hypotheses above are not assumed but derived: the dataset is the
+   state of PioHandles (stored info, chunk files, live PrecomputedIO objects),
+   initialisation is get_IO_for_new_dataset on an empty destination, every later
+   command opens its own object from the STORED info and writes the chunks of
+   C01's convert_ops through it. *)
+From NGS Require Import PioHandles LinkPipeline LinkPipelineProofs.
+
+Theorem C19_all_in_one_eq_steps_handles :
+  forall (I V bytes : Type) (scales_of : I -> list scale) (check_info : I -> outcome unit)
+         (encode : I -> list N -> vchunk V -> outcome bytes)
+         (decode : I -> list N -> bytes -> triple -> outcome (vchunk V))
+         (f : V -> V) (geom_of : I -> list N * triple * triple * Z)
+         (vol_opts : Type)
+         (gen_info : pvol V -> vol_opts -> option I) (fill_scales : option I -> option I)
+         (compute_scales : vol_opts -> option I -> pds I bytes -> pds I bytes) v o,
+  all_in_one (option I) (pds I bytes) (pvol V) vol_opts gen_info fill_scales
+             (p_new_dataset I V bytes scales_of check_info encode decode)
+             (p_write_volume I V bytes scales_of check_info encode decode f geom_of vol_opts)
+             compute_scales v o
+  = step_by_step (option I) (pds I bytes) (pvol V) vol_opts gen_info fill_scales
+             (p_new_dataset I V bytes scales_of check_info encode decode)
+             (p_stored_info I bytes)
+             (p_write_volume I V bytes scales_of check_info encode decode f geom_of vol_opts)
+             compute_scales v o.
+Proof. exact all_in_one_eq_steps_handles. Qed.
+Print Assumptions C19_all_in_one_eq_steps_handles.
+
+(* a freshly initialised dataset carries the info it was initialised with, and
+   no command other than an initialisation changes it *)
+Theorem C19_stored_info_stable :
+  forall (I V bytes : Type) scales_of check_info encode decode ops (st : pds I bytes),
+  Forall (no_new I V) ops ->
+  h_info (fst (p_run I V bytes scales_of check_info encode decode st ops)) = h_info st.
+Proof. exact run_no_new_info. Qed.
+Print Assumptions C19_stored_info_stable.
